@@ -295,7 +295,8 @@ def run(tier, seed):
     keysets = {'/metadata': ['kernelspec'], '/cells/*/metadata': ['collapsed', 'tags'], '/cells/*': ['execution_count', 'id'],
                '/cells/*/outputs/*': ['execution_count', 'metadata'], '/cells/*/outputs/*/metadata': ['custom']}
     for p, ks in keysets.items():
-        for lift in ({'kind': 'ignores', 'mapping': {p: False}}, {'kind': 'reset'}, {'kind': 'targets', 'shown': [True] * 6}):
+        for lift in ({'kind': 'ignores', 'mapping': {p: False}}, {'kind': 'reset'}, {'kind': 'targets', 'shown': [True] * 6},
+                     {'kind': 'flags', 'given': {n: True for n in FLAG_NAMES}}):
             for install in ({p: ks}, {p: True}):
                 a, bnb = everywhere_pair(r)
                 histories.append([{'kind': 'ignores', 'mapping': install}, lift, {'kind': 'diff', 'a': a, 'b': bnb}])
@@ -306,7 +307,7 @@ def run(tier, seed):
             op0 = {'kind': 'diff', 'a': a0, 'b': b0} if first == 'diff' else {'kind': 'merge', 'base': a0, 'local': b0, 'remote': copy.deepcopy(a0), 'strategy': 'inline'}
             histories.append([op0, {'kind': 'ignores', 'mapping': {p: ks}}, {'kind': 'diff', 'a': a, 'b': bnb}])
     for hidden in ([0], [3], [4], [5], [2, 4, 5], [0, 1, 2, 3, 4, 5]):
-        for lift in ({'kind': 'reset'}, {'kind': 'targets', 'shown': [True] * 6}):
+        for lift in ({'kind': 'reset'}, {'kind': 'targets', 'shown': [True] * 6}, {'kind': 'flags', 'given': {n: True for n in FLAG_NAMES}}):
             a, bnb = everywhere_pair(r)
             histories.append([{'kind': 'targets', 'shown': [i not in hidden for i in range(6)]}, lift, {'kind': 'diff', 'a': a, 'b': bnb}])
     for _ in range(24 if tier == 'quick' else 300): histories.append(versions_history(r))
